@@ -376,6 +376,19 @@ def noCommitSinceRev {w : Width} (t : Nat) : List (Event w) → Bool
 def noCommitSince {w : Width} (t : Nat) (log : List (Event w)) : Bool :=
   noCommitSinceRev t log.reverse
 
+/-- effect of an operation on the object alone (a trapping operation has none) -/
+def applyOp {w : Width} (c : Word w) (o : Oper w) : Word w :=
+  match o.spec c with
+  | some (c', _) => c'
+  | none => c
+
+/-- the thread after one of its instructions, executed while the object holds `c` -/
+def stepT {w : Width} (k : Kind) (th : Thread w) (c : Word w) : Thread w := (stepThread k c th).th
+
+/-- several instructions of one thread; the object holds `cs[i]` when the i-th executes (other
+    threads may have changed it in between) -/
+def stepsT {w : Width} (k : Kind) (th : Thread w) (cs : List (Word w)) : Thread w := cs.foldl (stepT k) th
+
 /-! ### thread-local bookkeeping used by the statements -/
 
 /-- inside a retry loop, after `lock cmpxchg`: has the attempt succeeded?  Read off the place where
